@@ -37,6 +37,6 @@ var corpus = []string{
 	`local ok, e = pcall(function() local ok2, e2 = pcall(error, "inner"); emit("inner caught", ok2, e2); error("outer") end); emit(ok, e)`,
 	`local o = setmetatable({}, {__index = function(t, k) error("idx:" .. k) end, __add = function() error({code = 7}) end}); emit(pcall(function() return o.foo end)); local ok, e = pcall(function() return o + 1 end); emit(ok, type(e), e.code)`,
 	`local co = coroutine.create(function() error("in co") end); emit(coroutine.resume(co)); emit(coroutine.status(co)); emit(pcall(coroutine.wrap(function() error({}) end)))`,
-	`emit(pcall(assert, false)); emit(pcall(assert, nil, "msg")); emit(pcall(assert, 1, 2, 3)); emit(select('#', pcall(assert, false)))`,
+	`emit(pcall(function() assert(false) end)); emit(pcall(function() assert(nil, "msg") end)); emit(pcall(assert, 1, 2, 3)); emit(select('#', pcall(function() assert(false) end)))`,
 	`local function thrower() error("x") end; for i = 1, 3 do local ok, e = pcall(thrower); emit(i, ok, e) end; local n = 0; while n < 3 do n = n + 1; pcall(error, n) end; emit(n)`,
 }
